@@ -84,6 +84,10 @@ def weights_guard_rule(ctx, repo):
 
 def run(ctx):
     repo = ctx.repo
+    from ..report import reuse
+    from . import c15 as _c15
+    reuse(ctx, _c15.run, ("C15.a2n",), "C16a2n", "conversion rule shared with C15: from_dict() and the constructors store every field through array_to_namespace(); a path that returns its argument "
+          "unconverted leaves a field in the namespace it came from, so a set rebuilt from its own dictionary holds arrays of two libraries and a partition of it no longer concatenates")
     shape_rule(ctx, repo)
     weights_guard_rule(ctx, repo)
     rbs = rebuilds(repo)
@@ -451,4 +455,9 @@ ANCHORS = [
     'aspire.samples:BaseSamples.__setstate__',
     'aspire.samples:BaseSamples.to_dict',
     'aspire.samples:BaseSamples.from_dict',
+]
+
+MUTANTS += [
+    M("array_to_namespace skips the conversion when the dtype already matches", "src/aspire/samples.py", "x = asarray(x, self.xp, **kwargs)\n        x = safe_to_device(x, self.device, self.xp)\n        return x",
+      "if self.device is None and hasattr(x, \"dtype\") and x.dtype == kwargs[\"dtype\"]:\n            return x\n        x = asarray(x, self.xp, **kwargs)\n        x = safe_to_device(x, self.device, self.xp)\n        return x", "C16a2n.a2n"),
 ]
